@@ -116,6 +116,7 @@ type Case struct {
 	Ctype     *string   `json:"ctype"`     // httpx-json: Content-Type (default application/json)
 	Static    string    `json:"static"`    // "self": the target is the declared type selfReq (it validates itself)
 	Entries   *Doc      `json:"entries"`   // mode "scribble": what the caller stores in the map it got back
+	Mutate    bool      `json:"mutate"`    // after the call the caller overwrites every reference-typed part of ITS target
 	// sequences
 	Steps  []Case `json:"steps"`
 	Procs1 bool   `json:"procs1"` // run the sequence under GOMAXPROCS(1)
@@ -673,16 +674,127 @@ func scribble(c Case) (out Out) {
 	return
 }
 
+// seqState is what the calls of one sequence share in the executor: the storage (pointers, maps,
+// slice backing arrays) owned by the targets and inputs of the earlier calls — a later target must
+// not share any of it — and the targets themselves, kept alive so that no address is reused.
+type seqState struct {
+	seen map[uintptr]string
+	keep []any
+	step int
+}
+
+// junk overwrites a scalar with a value the documents never hold.
+func junk(v reflect.Value) {
+	if !v.CanSet() {
+		return
+	}
+	switch v.Kind() {
+	case reflect.Bool:
+		v.SetBool(!v.Bool())
+	case reflect.Int, reflect.Int8, reflect.Int16, reflect.Int32, reflect.Int64:
+		if v.Int() == 77 {
+			v.SetInt(78)
+		} else {
+			v.SetInt(77)
+		}
+	case reflect.Uint, reflect.Uint8, reflect.Uint16, reflect.Uint32, reflect.Uint64:
+		if v.Uint() == 77 {
+			v.SetUint(78)
+		} else {
+			v.SetUint(77)
+		}
+	case reflect.Float32, reflect.Float64:
+		v.SetFloat(77.5)
+	case reflect.String:
+		v.SetString("scribbled")
+	}
+}
+
+// mutateAll is what a caller may do with its own value: overwrite what pointers point to, the
+// elements of slices (and one more within capacity), the entries of maps (and one more).
+func mutateAll(v reflect.Value) {
+	switch v.Kind() {
+	case reflect.Ptr:
+		if !v.IsNil() {
+			mutateAll(v.Elem())
+			junk(v.Elem())
+		}
+	case reflect.Slice:
+		if v.IsNil() {
+			return
+		}
+		for i := 0; i < v.Len(); i++ {
+			mutateAll(v.Index(i))
+			junk(v.Index(i))
+		}
+		if v.Cap() > v.Len() && v.CanSet() {
+			n := v.Len()
+			v.Set(v.Slice(0, n+1))
+			junk(v.Index(n))
+		}
+	case reflect.Map:
+		if v.IsNil() {
+			return
+		}
+		et := v.Type().Elem()
+		for _, k := range v.MapKeys() {
+			e := v.MapIndex(k)
+			mutateAll(e)
+			switch et.Kind() {
+			case reflect.Ptr, reflect.Slice, reflect.Map, reflect.Struct:
+			default:
+				n := reflect.New(et).Elem()
+				n.Set(e)
+				junk(n)
+				v.SetMapIndex(k, n)
+			}
+		}
+		v.SetMapIndex(reflect.ValueOf("scribbled-key"), reflect.Zero(et))
+	case reflect.Struct:
+		for i := 0; i < v.NumField(); i++ {
+			mutateAll(v.Field(i))
+		}
+	}
+}
+
+// inputStorage registers the maps and slices of the caller's input.
+func inputStorage(x any, path string, seen map[uintptr]string) {
+	switch v := x.(type) {
+	case map[string]any:
+		seen[reflect.ValueOf(v).Pointer()] = path
+		for k, e := range v {
+			inputStorage(e, path+"["+k+"]", seen)
+		}
+	case []any:
+		if len(v) > 0 {
+			seen[reflect.ValueOf(v).Pointer()] = path
+		}
+		for i, e := range v {
+			inputStorage(e, fmt.Sprintf("%s[%d]", path, i), seen)
+		}
+	case []string:
+		if len(v) > 0 {
+			seen[reflect.ValueOf(v).Pointer()] = path
+		}
+	}
+}
+
 func runCase(c Case) (out Out) {
+	return runStep(c, nil)
+}
+
+func runStep(c Case, sq *seqState) (out Out) {
 	out.ID = c.ID
 	if c.Mode == "seq" {
 		if c.Procs1 {
 			old := runtime.GOMAXPROCS(1)
 			defer runtime.GOMAXPROCS(old)
 		}
+		sq = &seqState{seen: map[uintptr]string{}}
 		for i, st := range c.Steps {
 			st.ID = i
-			o := runCase(st)
+			sq.step = i
+			o := runStep(st, sq)
 			if o.Fail != "" {
 				out.Fail = fmt.Sprintf("step %d: %s", i, o.Fail)
 				return
@@ -719,6 +831,7 @@ func runCase(c Case) (out Out) {
 	selfBefore := selfCalls
 
 	var call func() error
+	var input any // the caller's own map, for the entry points that take one
 	switch c.Mode {
 	case "json", "yaml", "toml", "jsonreader", "ojson", "yamlreader", "tomlbytes":
 		if c.Raw == nil {
@@ -754,6 +867,7 @@ func runCase(c Case) (out Out) {
 			out.Fail = c.Mode + " mode needs an object document"
 			return
 		}
+		input = m
 		switch c.Mode {
 		case "key":
 			call = func() error { return mapping.UnmarshalKey(m, target.Interface()) }
@@ -808,6 +922,7 @@ func runCase(c Case) (out Out) {
 			u = mapping.NewUnmarshaler("header", mapping.WithStringValues(),
 				mapping.WithCanonicalKeyFunc(textproto.CanonicalMIMEHeaderKey))
 		}
+		input = m
 		call = func() error { return u.Unmarshal(m, target.Interface()) }
 	case "httpx-json", "httpx-form", "httpx-path", "httpx-header", "parse":
 		var r *http.Request
@@ -938,7 +1053,18 @@ func runCase(c Case) (out Out) {
 		}
 		out.Verdict = "ok"
 		out.Val = dump(target.Elem())
-		out.Alias = aliased(target.Elem(), "", map[uintptr]string{})
+		seen := map[uintptr]string{}
+		prefix := ""
+		if sq != nil {
+			seen = sq.seen
+			prefix = fmt.Sprintf("call%d", sq.step)
+			sq.keep = append(sq.keep, target.Interface(), input)
+		}
+		inputStorage(input, prefix+"-input", seen)
+		out.Alias = aliased(target.Elem(), prefix, seen)
+		if c.Mutate {
+			mutateAll(target.Elem())
+		}
 	}()
 	if c.Static == "self" {
 		out.Called = selfCalls > selfBefore
